@@ -180,6 +180,50 @@ def check_analysis_hooks(ck, bad, abort_reach):
             muts = [a for a in t["argtys"] if a.startswith("&mut ")]
             ck.require(not muts and t["dty"] == "()", rule, "hook call in apply_modify",
                        "hook invoked with %s returning %s" % (muts, t["dty"]), am.where(t), ok_detail="shared refs only, unit result")
+    # the engine never looks inside the analysis set: outside the analysis module nothing reads a field of AnalysisSet (an accessor
+    # extracted into a helper is inlined into its caller by inline.py and shows up here) and no call that is given the set, or a
+    # trait object of it, returns anything but ()
+    ASET = "libpatch::analysis::AnalysisSet"
+    nset = 0
+    for fn in sorted(prog.fns.values(), key=lambda f: f.id):
+        own = fn.id.startswith("libpatch::analysis::") or fn.id.startswith("<libpatch::analysis::") or " as libpatch::analysis::" in fn.id
+        if own:
+            continue
+        def projs(x):
+            if isinstance(x, list):
+                for v in x:
+                    yield from projs(v)
+            elif isinstance(x, dict):
+                if x.get("adt") == ASET and "name" in x:
+                    yield x
+                for v in x.values():
+                    if isinstance(v, (list, dict)):
+                        yield from projs(v)
+        for bb, b in enumerate(fn.blocks):
+            if b["cleanup"]:
+                continue
+            for pr in projs([b["stmts"], b["term"]]):
+                ck.violate(rule, "the analysis set is opaque outside libpatch::analysis",
+                           "%s reads AnalysisSet.%s: what a push does would depend on the analyses registered with -A" % (fn.id, pr["name"]),
+                           fn.where(b["term"]))
+        for bb, t in fn.calls():
+            if fn.blocks[bb]["cleanup"]:
+                continue
+            tys = [a for a in t["argtys"] if ASET in a or "dyn libpatch::analysis::Analysis" in a]
+            if not tys:
+                continue
+            rp = callee_of(t).get("rpath") or ""
+            if rp.startswith("core::ptr::drop_in_place") or rp.startswith("core::mem::drop"):
+                continue
+            in_module = "libpatch::analysis::" in rp.split(" as ")[0] or rp.startswith("libpatch::analysis::") or " as libpatch::analysis::" in rp
+            if rp in prog.fns and not in_module:
+                continue       # handed on to a function that is examined here itself
+            nset += 1
+            registering = any(a.startswith("&mut ") for a in tys) and t["dty"] == "()"
+            ck.require(t["dty"] == "()" or t["dty"] == "!", rule, "call given the analysis set returns nothing: %s in %s" % (rp.split("::")[-1], fn.id.split("::")[-1]),
+                       "%s returns %s from a call that is given the analysis set: the engine could branch on it" % (rp, t["dty"]), fn.where(t),
+                       ok_detail="unit result" + (" (registration)" if registering else ""))
+    ck.floor(rule, "calls outside the analysis module that are given the analysis set", nset, 3)
     # the note callbacks handed to apply() only print
     n = 0
     for fn in prog.fns.values():
